@@ -359,14 +359,14 @@ Proof.
   destruct (nth_error (donew r) c) as [[[[s w] e] rs]|] eqn:N.
   - pose proof (nth_split_cnt) as Sp. pose proof (nth_error_Forall _ _ _ _ D N) as Rk. cbn [snd] in Rk.
     destruct (has_stop (cfg (st r)) rs); injection H as <-;
-      (eapply Slots_sub; [exact S|reflexivity| | | | |]; cbn [set_wait tbuf donew mailbox wakeups]).
-    + intros x. specialize (Sp x _ _ _ N). rewrite !held_cnt. cbn [set_wait pending runningw donew tbuf map].
+      (eapply Slots_sub; [exact S|reflexivity| | | | |]; cbn [log_fire set_wait tbuf donew mailbox wakeups]).
+    + intros x. specialize (Sp x _ _ _ N). rewrite !held_cnt. cbn [log_fire set_wait pending runningw donew tbuf map].
       rewrite bufkeys_app, cnt_app. unfold bufkeys at 2. cbn [flat_map tick_key app]. change (kd (s, w, e, rs)) with ((s, w) : key) in Sp. rewrite ?cnt_nil. lia.
     + apply Forall_app. split; [exact T|constructor; [exact Rk|constructor]].
     + constructor.
     + exact M.
     + exact W.
-    + intros x. specialize (Sp x _ _ _ N). rewrite !held_cnt. cbn [set_wait pending runningw donew tbuf map].
+    + intros x. specialize (Sp x _ _ _ N). rewrite !held_cnt. cbn [log_fire set_wait pending runningw donew tbuf map].
       rewrite bufkeys_app, !map_app, !cnt_app. unfold bufkeys at 2. cbn [flat_map tick_key app].
       rewrite map_app, cnt_app in Sp. change (kd (s, w, e, rs)) with ((s, w) : key) in Sp. rewrite ?cnt_nil. lia.
     + apply Forall_app. split; [exact T|constructor; [exact Rk|constructor]].
@@ -379,16 +379,16 @@ Proof.
       destruct (due_nostep _ _ _ _ W Du) as [Nd Nr].
       destruct d as [|d1 dd].
       * destruct (pending r) eqn:Ep; [discriminate H|]. injection H as <-.
-        eapply Slots_sub; [exact S|reflexivity| | | | |]; cbn [set_wait tbuf donew mailbox wakeups]; try assumption; try constructor.
-        intros x. rewrite !held_cnt. cbn [set_wait pending runningw donew tbuf map]. rewrite Ed, Ep, map_app, !cnt_app. cbn [map]. rewrite ?cnt_nil. lia.
+        eapply Slots_sub; [exact S|reflexivity| | | | |]; cbn [log_fire set_wait tbuf donew mailbox wakeups]; try assumption; try constructor.
+        intros x. rewrite !held_cnt. cbn [log_fire set_wait pending runningw donew tbuf map]. rewrite Ed, Ep, map_app, !cnt_app. cbn [map]. rewrite ?cnt_nil. lia.
       * injection H as <-.
-        eapply Slots_sub; [exact S|reflexivity| | | | |]; cbn [set_wait tbuf donew mailbox wakeups]; try assumption; try constructor.
-        -- intros x. rewrite !held_cnt. cbn [set_wait pending runningw donew tbuf map].
+        eapply Slots_sub; [exact S|reflexivity| | | | |]; cbn [log_fire set_wait tbuf donew mailbox wakeups]; try assumption; try constructor.
+        -- intros x. rewrite !held_cnt. cbn [log_fire set_wait pending runningw donew tbuf map].
            rewrite Ed, bufkeys_app, (bufkeys_nostep _ Nd), map_app, !cnt_app. cbn [map]. rewrite ?cnt_nil. lia.
         -- apply Forall_app. split; [exact T|]. eapply Forall_impl; [|exact Nd]. apply nostep_tick_ok.
     + injection H as <-. inversion M; subst.
-      eapply Slots_sub; [exact S|reflexivity| | | | |]; cbn [set_wait tbuf donew mailbox wakeups]; try assumption; try constructor.
-      * intros x. rewrite !held_cnt. cbn [set_wait pending runningw donew tbuf map].
+      eapply Slots_sub; [exact S|reflexivity| | | | |]; cbn [log_fire set_wait tbuf donew mailbox wakeups]; try assumption; try constructor.
+      * intros x. rewrite !held_cnt. cbn [log_fire set_wait pending runningw donew tbuf map].
         rewrite Ed, bufkeys_app, (bufkeys_nostep [t]) by (constructor; [assumption|constructor]).
         rewrite map_app, !cnt_app. cbn [map]. rewrite ?cnt_nil. lia.
       * apply Forall_app. split; [exact T|constructor; [apply nostep_tick_ok; assumption|constructor]].
